@@ -39,6 +39,7 @@ def run(chk: Check) -> None:
     ix = get_index()
     run_follow_imports(chk, ix)
     run_status(chk, ix)
+    run_change_detection(chk, ix)
 
     r1 = chk.rule("R03.1", "reprocess_nodes performs snapshot < clear < strip < analyse < merge < check < snapshot < compare < update_deps on every normal path, returns the compared triggers, and the propagation loop re-queues error targets and resets protocol caches first", floor=12)
     rp = ix.func("mypy.server.update.reprocess_nodes")
@@ -293,3 +294,49 @@ def run_status(chk: Check, ix) -> None:
                     r5.violation(key, f.loc(a), f"this path answers with a status that is not `1 if {main_pred} else 0`: the same program gets a different exit status from this daemon request than from a full run (for example output that consists only of notes)")
     if n_sites < 2:
         raise AnalysisError(f"only {n_sites} status computations found in dmypy_server.Server")
+
+
+def run_change_detection(chk: Check, ix) -> None:
+    """R03.6: the file watcher reports a path as changed exactly on: new, deleted, or (stat differs and content differs)."""
+    from ..pattern import find_all
+    r6 = chk.rule("R03.6", "FileSystemWatcher._find_changed: a deleted or new path is reported; otherwise the stat pre-filter compares size and mtime, a path that passes it is re-hashed, its record refreshed, and it is reported when size or hash differ", floor=4)
+    fc = ix.func("mypy.fswatcher.FileSystemWatcher._find_changed")
+    g = CFG(fc.node)
+    adds = [n for n in g.nodes if any(call_name(c) == "add" and norm(c.func.value) == "changed" for c in n.calls())]
+    if len(adds) < 3:
+        r6.violation("three reporting sites (deleted, new, modified)", fc.loc(), f"only {len(adds)} `changed.add(path)` sites: one kind of change is no longer reported")
+        return
+    from ..cfg import branch_conditions
+    par = fc.module.parents()
+    kinds = {}
+    for a in adds:
+        pos, neg = branch_conditions(par, fc.node, a.stmt)
+        t = {norm(x) for x in pos}
+        if "st is None" in t and "old is not None" in t:
+            kinds["deleted"] = a
+        elif "old is None" in t:
+            kinds["new"] = a
+        else:
+            kinds["modified"] = (a, pos)
+    for k in ("deleted", "new", "modified"):
+        if k in kinds:
+            r6.ok(f"a {k} path is added to the changed set", fc.loc((kinds[k][0] if k == "modified" else kinds[k]).stmt))
+        else:
+            r6.violation(f"a {k} path is added to the changed set", fc.loc(), f"no reporting site for a {k} file")
+    if "modified" in kinds:
+        a, pos = kinds["modified"]
+        texts = [norm(x) for x in pos]
+        pre = [t for t in texts if "st_mtime" in t]
+        final = [t for t in texts if ".hash" in t]
+        key = "the stat pre-filter looks at size and mtime; the final decision at size or content hash"
+        okpre = bool(pre) and all("st_size" in t and "st_mtime" in t and " or " in t for t in pre)
+        okfin = bool(final) and all(("!= old.hash" in t or "old.hash !=" in t) for t in final)
+        if okpre and okfin:
+            r6.ok(key, fc.loc(a.stmt))
+        else:
+            r6.violation(key, fc.loc(a.stmt), f"modified files are detected under {texts}: an edit that keeps the size (or falls in the same second) or that only changes the content is missed")
+        upd = [n for n in g.nodes if any(call_name(c) == "_update" for c in n.calls())]
+        if upd and g.must_pass(g.entry, [a], upd, labels_excluded=("exc",)):
+            r6.ok("the stored record is refreshed before a modification is reported", fc.loc(a.stmt))
+        else:
+            r6.violation("the stored record is refreshed before a modification is reported", fc.loc(a.stmt), "the remembered (mtime, size, hash) is not updated: the same change is reported on every later request or a revert goes unnoticed")
